@@ -117,7 +117,7 @@ def mem_history(rec, w):
 def _applicable(cls, model, ev):
     if model is None:  # the count file was removed: nothing further is defined
         return False
-    if ev in ("X", "D", "K"):
+    if ev in ("X", "D", "K", "Z"):
         return cls != "mem"
     if ev in ("C", "R"):
         if cls == "mem":
@@ -204,6 +204,11 @@ class Machine:
             tmpf = Path(str(self.path) + ".new")
             tmpf.write_text(f"{self.model}\n")
             os.replace(tmpf, self.path)
+        elif ev == "Z":
+            # environment: another writer (a second instance that wrapped or was reset, an operator) leaves a SMALLER valid count in
+            # the file: the state is what the file says
+            self.path.write_text("0\n")
+            self.model = 0
         elif ev == "K":
             # create_new(): the documented way to (re)start the sequence - afterwards the file holds 0 and counting starts over
             e, _ = self._try(self.inst.create_new)
@@ -666,7 +671,7 @@ def shards(tier):
         for first in set_ev:
             items.append({"kind": "stateless", "cls": "file", "w": w, "first": first, "events": set_ev, "depth": 5 if q else 6})
     # environment events: the file replaced by one with the same count (X), the file removed (D, ends the history)
-    env_ev = list("NGCRXDK")
+    env_ev = list("NGCRXDKZ")
     for w in (1, 2):
         for first in env_ev:
             items.append({"kind": "stateless", "cls": "file", "w": w, "first": first, "events": env_ev, "depth": 5 if q else 6})
